@@ -1146,6 +1146,11 @@ extern "C" fn race_add(db: *mut rodbus_ffi::Database, ctx: *mut c_void) {
         for k in 0..40u16 {
             ffi::rodbus_database_update_input_register(db, 60000 + (k % 4), k);
         }
+        // every 50th round the transaction stays open for a while: whoever came second is then certainly waiting -- or,
+        // if transactions are not exclusive, certainly inside its own (a loaded machine makes the plain race unlikely)
+        if c.idx % 50 == 0 {
+            std::thread::sleep(Duration::from_millis(3));
+        }
     }
 }
 extern "C" fn race_get(db: *mut rodbus_ffi::Database, ctx: *mut c_void) {
